@@ -160,6 +160,7 @@ func checkC17(c *Ctx) {
 	}
 	c.R.Check(ngo == 1 && !inLoop, ruleP7, "one-processor-goroutine-per-connection", c.P.Pos(r.Start.Pos()), "the processor is started by exactly one go statement, outside any loop", fmt.Sprintf("%d go statements start the processor (in a loop: %v): two processors of one connection handle packets concurrently and out of order", ngo, inLoop))
 	c.noGoroutineFromHandler()
+	c.startWritesNoPackets()
 	lockBalance(c, func(cl string) bool { return cl == "service.service.wmu" }, "write-mutex")
 	// what goes out has the length Len() says and the bytes the encoder counted (T1 length tables, B14)
 	c.codecLengthTables()
